@@ -595,6 +595,7 @@ struct Extractor {
             J.attribute("id", id(P->getCanonicalDecl()));
             J.attribute("n", P->getNameAsString());
             J.attribute("t", typeId(P->getType()));
+            J.attribute("l", loc(P->getLocation()));
             if (P->getType()->isLValueReferenceType()) J.attribute("ref", "&");
             else if (P->getType()->isRValueReferenceType()) J.attribute("ref", "&&");
             if (P->getType()->isReferenceType() && P->getType().getNonReferenceType().isConstQualified())
@@ -792,6 +793,28 @@ struct Extractor {
     Out << "\n";
   }
 
+  std::set<std::string> DoneEnums;
+  void enumDecl(const EnumDecl *ED) {
+    if (ED->isDependentType() && false) return;
+    std::string Q = qname(ED);
+    json::OStream J(Out);
+    J.object([&] {
+      J.attribute("rec", "enum");
+      J.attribute("q", Q);
+      J.attribute("l", loc(ED->getLocation()));
+      J.attribute("scoped", ED->isScoped());
+      J.attributeArray("constants", [&] {
+        for (const EnumConstantDecl *C : ED->enumerators()) {
+          J.object([&] {
+            J.attribute("n", C->getNameAsString());
+            J.attribute("v", C->getInitVal().getExtValue());
+          });
+        }
+      });
+    });
+    Out << "\n";
+  }
+
   void drain() {
     while (!Work.empty()) {
       const FunctionDecl *FD = Work.front();
@@ -838,6 +861,11 @@ public:
     if (RD->isThisDeclarationADefinition() && X.inHeader(RD->getLocation())) {
       X.record(RD);
     }
+    return true;
+  }
+  bool VisitEnumDecl(EnumDecl *ED) {
+    if (!ED->isThisDeclarationADefinition() || !X.inHeader(ED->getLocation())) return true;
+    X.enumDecl(ED);
     return true;
   }
   bool VisitVarDecl(VarDecl *VD) {
